@@ -1541,3 +1541,45 @@ def rule_slot_id_consumed(ctx):
                 ctx.violated("SLOTID", key, f.where(line), "the id returned by %s is only compared and then dropped: it stays registered for this access record next to the record's real id" % slot)
     ctx.floor("SLOTID", 2, n, "(ids returned by a special element's start-access slot)")
     return n
+
+
+def rule_start_access_keeps_record(ctx):
+    """STACCOWN (C16, C13): the start-access routines of the special-element kinds (the `stread` / `stwrite` slots and the
+    `..Istaccess` helper they share) are handed an access record that belongs to their caller: Hstartaccess releases it when
+    the slot fails, Hnextread keeps it for the access id it already belongs to.  None of them releases that record itself -
+    released twice it sits twice on the free list and the next two access ids share one record."""
+    from .rules_coders import _tables, _table_flow
+    prog = ctx.prog
+    tables = _tables(prog)
+    roots = set()
+    for t, (slots, _w) in tables.items():
+        for slot in ("stread", "stwrite"):
+            fn = slots.get(slot)
+            if fn:
+                roots.add(fn)
+    # one level down: helpers that receive the slot routine's access record parameter
+    funcs = set()
+    for r in sorted(roots):
+        f = prog.func(r)
+        if f is None:
+            continue
+        funcs.add(r)
+        params = [(p[0] if isinstance(p, (list, tuple)) else p.get("name")) for p in f.params]
+        for _b, _i, _s, c in f.calls():
+            if c[1] and any(kind(strip(a)) == "var" and strip(a)[1] in params for a in c[3]):
+                g = prog.func(c[1])
+                if g is not None and g.rel.startswith("hdf/src/") and "staccess" in c[1]:
+                    funcs.add(c[1])
+    n = 0
+    for name in sorted(funcs):
+        f = prog.func(name)
+        params = [(p[0] if isinstance(p, (list, tuple)) else p.get("name")) for p in f.params]
+        n += 1
+        key = "STACCOWN:%s" % name
+        rel = [s.get("l", f.line) for _b, _i, s, c in f.calls() if c[1] == "HIrelease_accrec_node" and c[3] and kind(strip(c[3][0])) == "var" and strip(c[3][0])[1] in params]
+        if rel:
+            ctx.violated("STACCOWN", key, f.where(rel[0]), "the start-access routine releases the access record it was handed; its caller releases (or keeps using) the same record")
+        else:
+            ctx.holds("STACCOWN", key, f.where(), "the access record handed to the start-access routine is left to the caller", nontrivial=True)
+    ctx.floor("STACCOWN", 8, n, "(start-access routines of the special-element kinds)")
+    return n
